@@ -322,6 +322,15 @@ class Server(object):
     def finished_msg(self):
         return hs_msg(20, self.ks.finished(self.ks.s_hs, self.transcript))
 
+    def finish(self):
+        """Sends Finished and fixes the application traffic keys (derived from the transcript up to the server Finished)."""
+        self.send_hs(self.finished_msg())
+        self.app = self.ks.app_keys(self.transcript)
+
+    def send_app_inner(self, inner, seq):
+        _, (sk, siv) = self.app
+        self.sock.sendall(RT.tls13_protect_raw_inner(sk, siv, seq.to_bytes(8, 'big'), inner))
+
     def read_client_finished(self):
         """True when the client answered with a Finished that verifies (it completed on its side)."""
         rec = read_record(self.sock, timeout=5.0)
